@@ -347,16 +347,16 @@ func MainC16() {
 	r.Exhaust = true
 
 	// 2. random programs
-	for i := 0; i < r.N(450, 12000); i++ {
+	for i := 0; i < r.N(450, 8000); i++ {
 		g := NewG(r.Rng)
 		g.div = r.Rng.Chance(10)
 		h.program("chain-random", g.ChainProgram(), "bd", true)
 	}
-	for i := 0; i < r.N(450, 9000); i++ {
+	for i := 0; i < r.N(450, 6000); i++ {
 		g := NewG(r.Rng)
 		h.program("scenario", g.Scenario(i%nScenarios), "bd", true)
 	}
-	for i := 0; i < r.N(600, 16000); i++ {
+	for i := 0; i < r.N(600, 10000); i++ {
 		g := NewG(r.Rng)
 		h.program("program", g.Program(), "bd", true)
 	}
